@@ -160,6 +160,12 @@ where
       have := decode_encode ty v hwf (canon_true ty hc v) hl rest
       rwa [norm_id ty hc v] at this
 
+/-- The helpers that hand the callback form on — `Joiner::and` and `KeyedVec::to_keyed_vec` —
+    append exactly the encoding of the value to what they were given. -/
+theorem joiner_and_keyed_vec (acc key : Bytes) (ty : Ty) (v : Val) (h : wf ty v = true) :
+    joinerAnd acc ty v = .ok (acc ++ Spec.encode ty v) ∧ toKeyedVec key ty v = .ok (key ++ Spec.encode ty v) := by
+  simp [joinerAnd, toKeyedVec, usingEncoded_eq ty v h, Res.map]
+
 /-! ### Non-vacuity -/
 example : overrides (.enum [] []) = some ⟨true, false, false⟩ := by decide
 example : usingEncoded (.compact 4) (.nat (2 ^ 32 - 1)) = .ok [3, 0xff, 0xff, 0xff, 0xff] := by decide
